@@ -20,7 +20,7 @@ ASSUMPTIONS = ["'parsing fails' = any exception leaves the constructor (its type
 
 
 def o_trunc(case):
-    from pyrtcm import RTCMMessage
+    from pyrtcm import RTCMMessage, RTCMReader
 
     if case.get("checkdef"):
         return Res(False, ["definition-unwalkable"])
@@ -45,6 +45,22 @@ def o_trunc(case):
             # which attribute was fed from beyond the cut?
             beyond = next((it.attr for it in w.items if it.bit0 + it.width > cut * 8 and it.width), "?")
             raise Fail("truncated-message-accepted", f"{ident}: {len(full)}-byte message cut to {cut} bytes was accepted (field {beyond} lies beyond the cut); payload {full.hex()[:120]}")
+        if len(full) - cut <= 3 or cut == hdr:
+            # the same cut message inside a transport frame handed to the static parser (checksum right, validation
+            # on and off), also with the six reserved header bits set: parse() takes the frame as it comes
+            for resv in (0, 1 + (cut * 7) % 63):
+                head = bytes([0xD3, (resv << 2) | (cut >> 8), cut & 0xFF]) + t
+                c = framing.crc_table(head)
+                fr = head + c.to_bytes(3, "big")
+                for val in (1, 0):
+                    evals += 1
+                    try:
+                        m = RTCMReader.parse(fr, validate=val)
+                    except Exception:  # pylint: disable=broad-except
+                        m = None
+                    if m is not None:
+                        raise Fail("truncated-message-accepted", f"{ident}: {len(full)}-byte message cut to {cut} bytes and framed (reserved bits {resv:06b}, checksum right) was accepted by RTCMReader.parse(validate={val}); frame {fr.hex()[:120]}")
+            cls.add("framed-cut-through-static-parser")
         inside_group = first_group_bit is not None and cut * 8 > first_group_bit
         before_group = first_group_bit is not None and cut * 8 <= first_group_bit
         if inside_group:
